@@ -1,6 +1,6 @@
 //go:build verif
 
-package x25519
+package x25519_test
 
 // C14 for dh/x25519: KeyGen (Joye ladder: diffAdd, double) and Shared (Montgomery ladder: ladderStep,
 // mulA24) over a fixed alphabet of secrets x peer values under each configuration.
@@ -9,25 +9,26 @@ import (
 	"fmt"
 	"testing"
 
+	dh "github.com/cloudflare/circl/dh/x25519"
 	"github.com/cloudflare/circl/internal/verifc14"
 )
 
 func TestVerifC14_x25519(t *testing.T) {
 	c := verifc14.Start(t, "x25519")
-	c.Backend("dh/x25519.hasBmi2Adx", c14Backend(), verifc14.FpSel)
+	c.BackendOptional("dh/x25519.hasBmi2Adx", dh.C14ReadBackend, verifc14.FpSel)
 	m1, b63 := ^uint64(0), uint64(1)<<63
 	wide := []uint64{2, 9, 18, 19, 20, 38, 1<<32 - 1, 1 << 32, b63 - 1, b63 + 1, m1 - 38, m1 - 19, m1 - 18, m1 - 1}
-	p := make([]byte, Size)
+	p := make([]byte, dh.Size)
 	for i := range p {
 		p[i] = 0xff
 	}
 	p[0], p[31] = 0xed, 0x7f
-	named := map[string][]byte{"p": p, "2p": verifc14.AddSmall(make([]byte, Size), -38), "9": {9, 31: 0}}
-	for i, lo := range lowOrderPoints { // the package's own table: neighbours and the non-canonical twins (+p, +2p where they fit)
-		named[fmt.Sprintf("low%d", i)] = append([]byte{}, lo[:]...)
+	named := map[string][]byte{"p": p, "2p": verifc14.AddSmall(make([]byte, dh.Size), -38), "9": {9, 31: 0}}
+	for i, lo := range verifc14.LowOrder25519() { // public constants (same values and order as the package's table): neighbours and the non-canonical twins
+		named[fmt.Sprintf("low%d", i)] = append([]byte{}, lo...)
 	}
 	all := verifc14.FieldAlphabet(4, wide, named, -2, 19, c.R.Pick(8, 32), "x25519-public")
-	secrets := verifc14.DHSecrets(Size, c.R.Thorough(), c.R.Seed())
+	secrets := verifc14.DHSecrets(dh.Size, c.R.Thorough(), c.R.Seed())
 	shared := append(append([]verifc14.Named{}, secrets[:10]...), secrets[len(secrets)-2:]...)
 	if c.R.Thorough() {
 		shared = append(shared, verifc14.Thin(secrets[10:len(secrets)-2], 48)...)
@@ -37,18 +38,18 @@ func TestVerifC14_x25519(t *testing.T) {
 		"(all 256 in the thorough tier, byte-boundary bits in the quick tier). KeyGen on every secret; Shared on 12 secrets (quick) / about 60 secrets (thorough: every 8th single-bit secret added) x every peer value; a case = one peer value, digest over all secrets (bytes + ok flag)")
 	c.R.NotExhaustive("secrets and peer values are the declared alphabets")
 	verifc14.RunDH(c, &verifc14.DH{
-		Name: "X25519", Size: Size,
+		Name: "X25519", Size: dh.Size,
 		KeyGen: func(s []byte) []byte {
-			var pk, sk Key
+			var pk, sk dh.Key
 			copy(sk[:], s)
-			KeyGen(&pk, &sk)
+			dh.KeyGen(&pk, &sk)
 			return pk[:]
 		},
 		Shared: func(s, u []byte) ([]byte, bool) {
-			var ss, sk, pk Key
+			var ss, sk, pk dh.Key
 			copy(sk[:], s)
 			copy(pk[:], u)
-			ok := Shared(&ss, &sk, &pk)
+			ok := dh.Shared(&ss, &sk, &pk)
 			return ss[:], ok
 		},
 	}, secrets, shared, all)
